@@ -755,8 +755,11 @@ class StructureVisitor(ASTTemplate):
             kept_ids = group_ids
         elif grouping_op == tokens.GROUP_EXCEPT:
             kept_ids = all_input_ids - group_ids
-        else:
+        elif grouping_op:
             kept_ids = all_input_ids
+        else:
+            # no grouping clause: one datapoint for the whole operand, no identifiers left
+            kept_ids = set()
 
         comps: Dict[str, Component] = {
             name: comp
